@@ -55,6 +55,27 @@ var after = []mutant{
 		sm.Message.Root = r
 		return err == nil
 	}),
+	// the same rule with data that only differs in LENGTH from the accepted proposal's (the accepted data is a
+	// strict prefix of the new one, and the other way round): comparisons that walk one of the two buffers
+	// must not depend on where the first difference is (seed C08-s3)
+	consMut("history-second-proposal-different-data", func(w *world, h *hmsg, sm *specqbft.SignedMessage) bool {
+		if sm.Message.MsgType != specqbft.ProposalMsgType {
+			return false
+		}
+		sm.FullData = append(append([]byte(nil), sm.FullData...), "-and-more"...)
+		r, err := specqbft.HashDataRoot(sm.FullData)
+		sm.Message.Root = r
+		return err == nil
+	}),
+	consMut("history-second-proposal-different-data", func(w *world, h *hmsg, sm *specqbft.SignedMessage) bool {
+		if sm.Message.MsgType != specqbft.ProposalMsgType || len(sm.FullData) < 2 {
+			return false
+		}
+		sm.FullData = append([]byte(nil), sm.FullData[:len(sm.FullData)-1]...)
+		r, err := specqbft.HashDataRoot(sm.FullData)
+		sm.Message.Root = r
+		return err == nil
+	}),
 }
 
 func (w *world) mutantsAfter(h *hmsg, mask int64) {
